@@ -1,16 +1,28 @@
 """C18 -- series functions act row by row and follow their formulas (Props/C18.v)."""
 import json
 import math
+import os
+import threading
 import warnings
 from fractions import Fraction
 
 import coqlit as L
 
 NAN = float('nan')
+# Pending finding (unchanged /repo): a series function applied to a DETACHED part of a series column -- srs.z(dm.s[1:]),
+# srs.endlock(dm.s[[2, 0]]) -- returns a column with the length of the whole DataMatrix, rows written positionally from
+# row 0 and the other rows NaN (_SeriesColumn._map, endlock, threshold, lock), or raises (reduce, fft, concatenate,
+# baseline); only window / col[:, a:b] are right.  True adds hosts {'kind': 'colslice' | 'colindex'} to the generator.
+INCLUDE_PENDING_FINDINGS = False
 ROWLOCAL = {'endlock', 'threshold', 'window', 'getslice', 'concatenate', 'setdepth', 'downsample', 'interpolate',
             'reduce', 'baseline', 'z', 'smooth', 'fft', 'lowpass', 'highpass', 'bandpass'}
 ABSTRACT = {'smooth', 'fft', 'lowpass', 'highpass', 'bandpass'}
 ARITH = {'downsample', 'interpolate', 'reduce', 'baseline', 'z'}
+FILTERS = ('lowpass', 'highpass', 'bandpass')
+ALL_FNS = ['endlock', 'lock', 'threshold', 'window', 'getslice', 'concatenate', 'normalize_time', 'setdepth',
+           'downsample', 'interpolate', 'reduce', 'baseline', 'z', 'smooth', 'fft', 'lowpass', 'highpass', 'bandpass']
+# functions whose call needs nothing but the series column itself (a prelude entry can run them on the host of the case)
+S_ONLY = [f for f in ALL_FNS if f not in ('lock', 'concatenate', 'normalize_time', 'baseline')]
 LCM = 27720          # lcm(1..12): block means / slopes of integer multiples of it are integers
 
 
@@ -209,6 +221,12 @@ class Run(object):
         if inp.get('sortkey') is not None:
             dm.o = list(inp['sortkey'])
         self.dm = dm
+        self.detach = None      # row key (slice / index list) applied to every column handed to the function
+
+    def col(self, dm, name):
+        """the column handed to the function: the column of the host, or (pending finding) a detached slice of it"""
+        c = dm[name]
+        return c if self.detach is None else c[self.detach]
 
     @staticmethod
     def all_series(inp):
@@ -229,19 +247,26 @@ class Run(object):
             return ops.sort(dm, by=dm.o)
         if host['kind'] == 'select':
             return dm.k == set(host['ps'])
+        if host['kind'] == 'colslice':      # the host stays, the columns handed over are slices of its columns
+            self.detach = slice(host['lo'], host['hi'])
+            return dm
+        if host['kind'] == 'colindex':
+            self.detach = list(host['ps'])
+            return dm
         raise AssertionError(host)
 
-    def apply(self, dm):
-        """-> (result column or exception name, info dict)"""
+    def apply(self, dm, fn=None, p=None):
+        """the call of the case (or, for a prelude entry, of function `fn` with parameters `p`) on the host `dm`"""
         from datamatrix import series as srs
         np = self.np
         inp = self.inp
-        fn, p = inp['fn'], inp.get('params', {})
-        s = dm.s
+        if fn is None:
+            fn, p = inp['fn'], inp.get('params', {})
+        s = self.col(dm, 's')
         if fn == 'endlock':
             return srs.endlock(s)
         if fn == 'lock':
-            lk = dm.l if p.get('as', 'col') == 'col' else [int(v) for v in dm.l]
+            lk = self.col(dm, 'l') if p.get('as', 'col') == 'col' else [int(v) for v in self.col(dm, 'l')]
             return srs.lock(s, lk)
         if fn == 'threshold':
             return srs.threshold(s, PREDS[p['pred']][0](p.get('c', 0.0)), min_length=p['min_length'])
@@ -252,11 +277,11 @@ class Run(object):
         if fn == 'getslice':
             return s[:, p.get('lo'):p.get('hi')]
         if fn == 'concatenate':
-            return srs.concatenate(*[dm[name] for name in sorted(self.all_series(inp))])
+            return srs.concatenate(*[self.col(dm, name) for name in sorted(self.all_series(inp))])
         if fn == 'normalize_time':
-            return srs.normalize_time(s, dm.s2)
+            return srs.normalize_time(s, self.col(dm, 's2'))
         if fn == 'setdepth':
-            c = dm.s          # dm is a private copy in this case (see observe)
+            c = s             # dm is a private copy in this case (see observe)
             c.depth = p['depth']
             return c
         if fn == 'downsample':
@@ -280,19 +305,22 @@ class Run(object):
                 kw['bl_start'] = p['bl_start']
             if p.get('bl_end') is not None:
                 kw['bl_end'] = p['bl_end']
-            return srs.baseline(s, dm.s2, **kw)
+            return srs.baseline(s, self.col(dm, 's2'), **kw)
         if fn == 'z':
             return srs.z(s)
         if fn == 'smooth':
             return srs.smooth(s, winlen=p['winlen'], wintype=p['wintype'])
         if fn == 'fft':
             return srs.fft(s, truncate=p['truncate'])
-        if fn == 'lowpass':
-            return srs.filter_lowpass(s, freq_max=p['f'], order=p.get('order', 2))
-        if fn == 'highpass':
-            return srs.filter_highpass(s, freq_min=p['f'], order=p.get('order', 2))
-        if fn == 'bandpass':
-            return srs.filter_bandpass(s, freq_range=(p['f'], p['f2']), order=p.get('order', 2))
+        if fn in FILTERS:
+            kw = {'order': p['order']} if 'order' in p else {}
+            if 'fs' in p:
+                kw['sampling_freq'] = p['fs']
+            if fn == 'lowpass':
+                return srs.filter_lowpass(s, freq_max=p['f'], **kw)
+            if fn == 'highpass':
+                return srs.filter_highpass(s, freq_min=p['f'], **kw)
+            return srs.filter_bandpass(s, freq_range=(p['f'], p['f2']), **kw)
         raise AssertionError(fn)
 
     def snapshot(self, dm):
@@ -312,7 +340,8 @@ class Run(object):
         fails = []
         work = dm[:] if fn == 'setdepth' else dm
         before = self.snapshot(dm)
-        inrows = [tolist(work.s[i]) for i in range(len(work))] if work.s.depth else [[] for _ in range(len(work))]
+        given = self.col(work, 's')
+        inrows = [tolist(given[i]) for i in range(len(given))] if given.depth else [[] for _ in range(len(given))]
         try:
             with warnings.catch_warnings():
                 warnings.simplefilter('ignore')
@@ -323,7 +352,7 @@ class Run(object):
         if before != after:
             fails.append('%s changed its input (column data, depth, row ids or the host table)' % fn)
         out = {'in': inrows, 'rows': None, 'exc': None, 'zp': None, 'fails': fails,
-               'ks': [int(v) for v in dm.k]}
+               'ks': [int(v) for v in self.col(dm, 'k')]}
         if isinstance(res, Exception):
             out['exc'] = type(res).__name__
             return out
@@ -337,11 +366,11 @@ class Run(object):
         if type(res) is not want:
             fails.append('%s returned %s instead of %s' % (fn, type(res).__name__, want.__name__))
             return out
-        if len(res) != len(work.s):
-            fails.append('%s returned %d rows for %d input rows' % (fn, len(res), len(work.s)))
-        if res._datamatrix is not work.s._datamatrix:
+        if len(res) != len(given):
+            fails.append('%s returned %d rows for %d input rows' % (fn, len(res), len(given)))
+        if res._datamatrix is not given._datamatrix:
             fails.append('%s: the result is not attached to the DataMatrix of its input' % fn)
-        if [int(i) for i in res._rowid] != [int(i) for i in work.s._rowid]:
+        if [int(i) for i in res._rowid] != [int(i) for i in given._rowid]:
             fails.append('%s: the result rows are not the input rows (row ids differ)' % fn)
         if fn == 'reduce':
             vals = [res[i] for i in range(len(res))]
@@ -355,6 +384,102 @@ class Run(object):
             out['rows'] = [tolist(res[i]) for i in range(len(res))] if res.depth else [[] for _ in range(len(res))]
             out['depth'] = int(res.depth)
         return out
+
+
+# ---------------------------------------------------------------------- call histories
+def run_prelude(run, prelude):
+    """Executes the calls of a prelude (results are discarded, exceptions are observations of no interest here).
+    on='same': on the host table of the case itself; otherwise on a table of its own built from the entry's rows."""
+    for pre in prelude:
+        try:
+            with warnings.catch_warnings():
+                warnings.simplefilter('ignore')
+                if pre.get('on') == 'same':
+                    run.apply(run.dm[:] if pre['fn'] == 'setdepth' else run.dm, pre['fn'], pre.get('params', {}))
+                else:
+                    r2 = Run(pre)
+                    r2.observe(r2.dm)
+        except Exception:       # noqa
+            pass
+
+
+def run_main(inp):
+    """The main call of `inp` on its host table, nothing before it -> JSON-able observation."""
+    run = Run(inp)
+    o = run.observe(run.dm)
+    return {'rows': o['rows'], 'exc': o['exc'], 'zero_point': o['zp']}
+
+
+def bits_equal(a, b):
+    """bit-identical samples (NaN payloads aside)"""
+    if isnan(a) or isnan(b):
+        return isnan(a) and isnan(b)
+    return float(a) == float(b) and math.copysign(1.0, a) == math.copysign(1.0, b)
+
+
+def obs_diff(a, b):
+    """None when two observations of the same call are bit-identical, else a description of the first difference"""
+    for k in ('exc', 'zero_point'):
+        if a.get(k) != b.get(k):
+            return '%s %r vs %r' % (k, a.get(k), b.get(k))
+    ra, rb = a.get('rows'), b.get('rows')
+    if (ra is None) != (rb is None):
+        return 'rows %r vs %r' % (ra, rb)
+    if ra is None:
+        return None
+    if len(ra) != len(rb):
+        return '%d rows vs %d rows' % (len(ra), len(rb))
+    for i, (x, y) in enumerate(zip(ra, rb)):
+        if len(x) != len(y) or not all(bits_equal(u, v) for u, v in zip(x, y)):
+            return 'row %d: %r vs %r' % (i, x, y)
+    return None
+
+
+# Every case is evaluated in a process forked from a "zygote" that has imported the library but never called it
+# (harness/c18_zygote.py): the state of a fresh interpreter.  Cases are therefore independent of one another and of
+# the order in which the generator emits them, and a replay sees exactly what the run saw.
+IN_CHILD = False
+_LOCAL = threading.local()
+_ALL_ZYGOTES = []
+
+
+def zygote():
+    z = getattr(_LOCAL, 'z', None)
+    if z is None:
+        import atexit
+        import c18_zygote
+        z = _LOCAL.z = c18_zygote.Zygote()
+        _ALL_ZYGOTES.append(z)
+        atexit.register(z.close)
+    return z
+
+
+def in_fresh_process(mode, inp):
+    """mode 'case': PROP.rerun_here(inp) -> {'case': ...};  mode 'main': run_main(inp) -> {'obs': ...};
+    {'error': text} when the child could not answer (the caller then falls back to this process)"""
+    try:
+        return zygote().request({'mode': mode, 'input': inp})
+    except Exception as e:      # noqa -- the helper process could not be started / died
+        return {'error': '%s: %s' % (type(e).__name__, e)}
+
+
+def ref_butter(fn, p, rows):
+    """direct SciPy reference for the Butterworth filters: butter(..., output='sos') + sosfilt per row (what the
+    documentation of filter_lowpass/highpass/bandpass promises) -> rows of floats, or None when SciPy rejects the
+    parameters"""
+    import numpy as np
+    from scipy.signal import butter, sosfilt
+    wn = (p['f'], p['f2']) if fn == 'bandpass' else p['f']
+    try:
+        sos = butter(p.get('order', 2), wn, btype=fn, fs=p.get('fs'), output='sos')
+    except Exception:       # noqa
+        return None
+    out = []
+    with warnings.catch_warnings():
+        warnings.simplefilter('ignore')
+        for r in rows:
+            out.append(tolist(sosfilt(sos, np.array([NAN if v is None else v for v in r], dtype=float))))
+    return out
 
 
 # ---------------------------------------------------------------------- the property object
@@ -375,16 +500,27 @@ class C18:
             'dm.k == {..}); structural functions and exactly-representable arithmetic inputs are compared exactly with the '
             'L0 spec inside Coq on both hosts, other arithmetic inputs with relative tolerance 1e-9 on the Python side; '
             'for all functions incl. smooth/fft/Butterworth: f(reordered) == reorder(f(original)), per-row call == column '
-            'call, inputs unchanged, one row per input row on the same DataMatrix.  A malformed stream (wrong lock length, '
-            'by > depth, bad timestamps, reversed windows) is compared with the L1 model only.  non-trivial = the output '
-            'differs from the input column; distinct by (function, parameters, rows, host)')
+            'call, inputs unchanged, one row per input row on the same DataMatrix; the Butterworth filters (orders 1-3, '
+            'sampling frequency omitted / None / 2 / 10 / 100) are also compared with scipy.signal.butter(output=sos) + sosfilt '
+            'per row (1e-9).  A malformed stream (wrong lock length, by > depth, bad timestamps, reversed windows) is compared '
+            'with the L1 model only.  Every case is evaluated in a process forked from a helper that has imported the library '
+            'but never called it (the state of a fresh interpreter), so cases do not influence one another.  Call histories: '
+            'for each of the 18 functions, cases with a prelude of 1-4 (sometimes 8-20) other calls made first in the same '
+            'process -- the same function with other parameters or other data, the other filters with the same cut-off / order '
+            '/ sampling frequency, smooth with the same window length and another window type, any of the 18 functions in '
+            'random order, on the host table of the case, on a copy of its rows or on other rows; the main call after the '
+            'prelude must be bit-identical to the main call evaluated alone in another fresh process (and satisfies all the '
+            'checks above).  non-trivial = the output differs from the input column; distinct by (function, parameters, rows, '
+            'host, prelude)')
     trusted_base = [
         'Coq 8.16.1 kernel (coqc; vm_compute for evaluating cases; no native_compute)',
         'translator /verif/translate/gen_series.py (+ py2coq.py): slice bounds, depth arithmetic and run-length tests of '
         'series.py / _seriescolumn.py -> Gen/KSeries.v, and its pinned connecting statements',
         'hand-written NumPy models in Model/Series.v (basic slicing, reshape, np.interp, nanmean/nanmedian, searchsorted on '
         'arange), exercised by the correspondence',
-        'harness/c18.py (runner, literal printer via fractions.Fraction, exactness filter, tolerance references)',
+        'harness/c18.py (runner, literal printer via fractions.Fraction, exactness filter, tolerance references) and '
+        'harness/c18_zygote.py (fork server: every case starts from the state of a fresh interpreter)',
+        'scipy.signal.butter / sosfilt called directly as the reference of the three filters',
         'modelled, not verified: NumPy/SciPy numerics (fft, convolve, sosfilt, butter), IEEE rounding',
     ]
     assumptions = [
@@ -393,8 +529,11 @@ class C18:
         'arithmetic functions (interpolate, downsample, reduce, baseline, z) are compared exactly inside Coq only on inputs '
         'for which every intermediate float operation is exact (decided from the input with fractions.Fraction); on other '
         'inputs the comparison with the rational reference uses relative tolerance 1e-9 on the Python side',
-        'smooth, fft and the Butterworth filters: only the row-wise statements are checked (their numerical content is not '
-        'part of the property)',
+        'smooth and fft: only the row-wise and history-independence statements are checked (their numerical content is '
+        'not part of the property); the Butterworth filters are in addition compared with SciPy (butter + sosfilt, relative '
+        'tolerance 1e-9)',
+        'history independence is checked from the state of a fresh interpreter that has imported datamatrix, numpy and '
+        'scipy.signal; state kept outside the process (files) is not reset between cases',
         'z: rows with zero variance or no valid sample are outside the formula (mean 0 / sd 1 is unsatisfiable); the '
         'standard deviation enters the Coq oracle as a rational witness checked by sd*sd == variance',
         'host-table reordering / selection itself (dm[positions], ops.sort, dm.k == set) is the subject of C01/C02/C10; here the '
@@ -404,8 +543,50 @@ class C18:
 
     # ---- one case ----------------------------------------------------------
     def rerun(self, inp):
+        """The case is evaluated from the state of a fresh interpreter (forked helper); when it has a prelude, its main
+        call is evaluated a second time in another fresh process WITHOUT the prelude and must be bit-identical."""
+        if IN_CHILD or os.environ.get('C18_INPROCESS') == '1':
+            return self.rerun_here(inp)
+        ans = in_fresh_process('case', inp)
+        if 'case' not in ans:
+            case = self.rerun_here(inp)      # as before: an exception of the runner surfaces in the driver
+            case['tags'] = sorted(set(case['tags'] + ['evaluated-in-this-process']))
+            return case
+        case = ans['case']
+        case['input'] = inp
+        if inp.get('prelude') and not inp.get('malformed'):
+            fresh = in_fresh_process('main', inp)
+            if 'obs' not in fresh:
+                fresh = {'obs': run_main(inp)}
+            fresh, after = fresh['obs'], case['observed']['host']
+            d = obs_diff(fresh, after)
+            if d:
+                def show(o):
+                    return o['rows'] if o['exc'] is None else o['exc']
+                msg = ('%s depends on the call history: evaluated first in a fresh interpreter it gives %r, the same call on '
+                       'the same input after the calls %s gives %r (%s)' % (
+                           inp['fn'], show(fresh), json.dumps([[e['fn'], e.get('params')] for e in inp['prelude']],
+                                                              sort_keys=True), show(after), d))
+                case['pyfail'] = msg + ('; ' + case['pyfail'] if case.get('pyfail') else '')
+            case['observed']['host_without_prelude'] = fresh
+        return case
+
+    def rerun_many(self, inps):
+        """rerun for a list of inputs, a few helper processes in parallel; order preserved"""
+        if IN_CHILD or os.environ.get('C18_INPROCESS') == '1' or len(inps) < 8:
+            return [self.rerun(i) for i in inps]
+        from concurrent.futures import ThreadPoolExecutor
+        with ThreadPoolExecutor(max_workers=min(4, os.cpu_count() or 1)) as ex:
+            out = list(ex.map(self.rerun, inps))
+        while _ALL_ZYGOTES:
+            _ALL_ZYGOTES.pop().close()
+        _LOCAL.z = None
+        return out
+
+    def rerun_here(self, inp):
         fn = inp['fn']
         run = Run(inp)
+        run_prelude(run, inp.get('prelude') or [])
         o0 = run.observe(run.dm)
         try:
             dm1 = run.derived()
@@ -460,13 +641,16 @@ class C18:
                 'host:' + (inp.get('host') or {'kind': 'id'})['kind']] + (['malformed'] if malformed else [])
         for r in inp['rows']:
             tags.append('nan:' + nan_class(r))
+        for e in inp.get('prelude') or []:
+            tags += ['history', 'before:' + e['fn'], 'before-on:' + ('host' if e.get('on') == 'same' else 'same-rows' if e.get(
+                'rows') == inp['rows'] else 'other-rows')]
         return {
             'input': inp, 'observed': observed, 'pyfail': '; '.join(fails) if fails else None,
             'oracle': '(' + ' && '.join(oracle_parts) + ')' if oracle_parts else 'true',
             'model': '(' + ' && '.join(model_parts) + ')' if model_parts else 'true',
             'nontrivial': nontrivial,
-            'sig': json.dumps([fn, inp.get('params'), inp['rows'], inp.get('more'), inp.get('lock'), inp.get('host')],
-                              sort_keys=True),
+            'sig': json.dumps([fn, inp.get('params'), inp['rows'], inp.get('more'), inp.get('lock'), inp.get('host'),
+                               inp.get('prelude')], sort_keys=True),
             'tags': sorted(set(tags)),
         }
 
@@ -562,7 +746,7 @@ class C18:
             if o['rows'] is None or all(s is None for s in sds):
                 return None, None, 'tol'
             w = '[' + '; '.join('None' if s is None else '(Some %s)' % qlit(s) for s in sds) + ']'
-            return 'o_z %s %s %s' % (w, S, obs), None, 'exact'
+            return 'o_z %s %s %s' % (w, S, obs), 'm_z %s %s %s' % (w, S, obs), 'exact'
         return None, None, 'exact'
 
     def python_checks(self, inp, o):
@@ -611,6 +795,10 @@ class C18:
                     if abs(m) > 1e-9 or abs(sd - 1) > 1e-9:
                         fails.append('z: row %r has mean %r and standard deviation %r' % (orow, m, sd))
             cmp_rows(refs, 'z')
+        elif fn in FILTERS:
+            ref = ref_butter(fn, p, rows)
+            if ref is not None:
+                cmp_rows(ref, 'filter_%s (scipy.signal.butter + sosfilt reference)' % fn)
         return fails
 
     def per_row_calls(self, inp, o0):
@@ -665,6 +853,11 @@ class C18:
         return [None if v is None else float(v) for v in vals]
 
     def gen_host(self, rng, n):
+        if INCLUDE_PENDING_FINDINGS and rng.random() < 0.25:
+            if rng.random() < 0.5:
+                lo = rng.randint(0, n - 1)
+                return {'kind': 'colslice', 'lo': lo, 'hi': rng.randint(lo + 1, n)}, None
+            return {'kind': 'colindex', 'ps': rng.sample(range(n), rng.randint(1, n))}, None
         k = rng.choice(['index', 'index', 'sort', 'select'])
         if k == 'index':
             m = rng.randint(1, n)
@@ -685,9 +878,9 @@ class C18:
             t += rng.randint(1, 3)
         return out + [None] * k
 
-    def gen_case(self, rng, fn, nmax, dmax, tol=False):
-        n = rng.randint(1, nmax)
-        d = rng.randint(1, dmax)
+    def gen_case(self, rng, fn, nmax, dmax, tol=False, n=None, d=None):
+        n = rng.randint(1, nmax) if n is None else n
+        d = rng.randint(1, dmax) if d is None else d
         arith = fn in ARITH
         exact = arith and not tol
         if arith and exact and fn != 'z':
@@ -760,13 +953,84 @@ class C18:
         elif fn in ('lowpass', 'highpass'):
             p['f'] = rng.choice([0.1, 0.25, 0.5])
             p['order'] = rng.choice([1, 2, 3])
+            self.gen_fs(rng, p)
         elif fn == 'bandpass':
             p['f'], p['f2'] = rng.choice([(0.1, 0.3), (0.2, 0.6), (0.05, 0.5)])
+            if rng.random() < 0.5:
+                p['order'] = rng.choice([1, 2, 3])
+            self.gen_fs(rng, p)
         if n > 1 or rng.random() < 0.5:
             host, key = self.gen_host(rng, n)
             inp['host'] = host
             if key is not None:
                 inp['sortkey'] = key
+        return inp
+
+    @staticmethod
+    def gen_fs(rng, p):
+        """sampling frequency: omitted, None (the SciPy default of 2 half-cycles per sample) or a value; the cut-offs are
+        drawn as fractions of the Nyquist frequency and scaled"""
+        k = rng.choice(['omit', 'omit', 'none', 2.0, 10.0, 100.0])
+        if k == 'omit':
+            return
+        p['fs'] = None if k == 'none' else k
+        if p['fs'] is not None:
+            for key in ('f', 'f2'):
+                if key in p:
+                    p[key] = p[key] * p['fs'] / 2
+
+    def sibling(self, rng, fn):
+        """a function to call before `fn`: mostly one that plausibly shares state with it"""
+        r = rng.random()
+        if fn in FILTERS:
+            return rng.choice(FILTERS) if r < 0.8 else rng.choice(ALL_FNS)
+        if r < 0.4:
+            return fn
+        return rng.choice(ALL_FNS)
+
+    def gen_history(self, rng, fn, nmax, dmax):
+        """a case of `fn` with a prelude: 1-4 (one time in eight: 8-20) calls of sibling functions made before it -- the same function with other
+        parameters or on other data, the other Butterworth filters with the same cut-off / order / sampling frequency,
+        any of the 18 functions in random order -- on the host table of the case, on a copy of its rows or on other rows"""
+        inp = self.gen_case(rng, fn, nmax, dmax, tol=(fn in ABSTRACT or rng.random() < 0.3))
+        n, d = len(inp['rows']), inp['depth']
+        p = inp['params']
+        pre = []
+        for _ in range(rng.randint(8, 20) if rng.random() < 0.12 else rng.randint(1, 4)):
+            fn2 = self.sibling(rng, fn)
+            e = self.gen_case(rng, fn2, nmax, dmax, tol=True, n=n, d=d)
+            e.pop('host', None)
+            e.pop('sortkey', None)
+            q = e['params']
+            if fn in FILTERS and fn2 in FILTERS:
+                # overlapping parameters: same order / sampling frequency, one cut-off in common
+                for key in ('order', 'fs'):
+                    if rng.random() < 0.85:
+                        q.pop(key, None)
+                        if key in p:
+                            q[key] = p[key]
+                if q.get('fs') == p.get('fs') and rng.random() < 0.85:
+                    nyq = (p.get('fs') or 2.0) / 2
+                    f = p['f2'] if (fn == 'bandpass' and rng.random() < 0.5) else p['f']
+                    if fn2 == 'bandpass':
+                        if fn == 'bandpass':
+                            q['f'], q['f2'] = p['f'], p['f2']
+                        elif rng.random() < 0.5 or f * 0.5 <= 0:
+                            q['f'], q['f2'] = f, (f + nyq) / 2
+                        else:
+                            q['f'], q['f2'] = f * 0.5, f
+                    else:
+                        q['f'] = f
+            elif fn2 == fn:
+                for key in sorted(q):           # the same function: every parameter is shared with probability 1/2
+                    if key in p and rng.random() < 0.5:
+                        q[key] = p[key]
+            if e['depth'] == d and rng.random() < 0.65:
+                e['rows'] = json.loads(json.dumps(inp['rows']))
+                if fn2 in S_ONLY and rng.random() < 0.6:
+                    e = {'fn': fn2, 'params': q, 'on': 'same'}
+            pre.append(e)
+        inp['prelude'] = pre
         return inp
 
     def gen_z_row(self, rng, d):
@@ -827,24 +1091,28 @@ class C18:
         quick = tier == 'quick'
         nmax, dmax = (5, 9) if quick else (7, 12)
         reps = 55 if quick else 420
-        cases = []
+        inps = []
         fns = ['endlock', 'lock', 'threshold', 'window', 'getslice', 'concatenate', 'normalize_time', 'setdepth',
                'downsample', 'interpolate', 'reduce', 'baseline', 'z']
         for fn in fns:
             for _ in range(reps):
-                cases.append(self.rerun(self.gen_case(rng, fn, nmax, dmax)))
+                inps.append(self.gen_case(rng, fn, nmax, dmax))
         for fn in sorted(ARITH):
             for _ in range(reps // 3):
-                cases.append(self.rerun(self.gen_case(rng, fn, nmax, dmax, tol=True)))
+                inps.append(self.gen_case(rng, fn, nmax, dmax, tol=True))
         for fn in sorted(ABSTRACT):
             for _ in range(reps // 3):
-                cases.append(self.rerun(self.gen_case(rng, fn, nmax, dmax, tol=True)))
+                inps.append(self.gen_case(rng, fn, nmax, dmax, tol=True))
         for _ in range(reps):
-            cases.append(self.rerun(self.gen_malformed(rng, nmax, dmax)))
+            inps.append(self.gen_malformed(rng, nmax, dmax))
+        # call histories: every function after a prelude of sibling calls
+        for fn in ALL_FNS:
+            for _ in range((reps // 8) * (2 if fn in FILTERS else 1)):
+                inps.append(self.gen_history(rng, fn, nmax, dmax))
         # fixed boundary cases named by the property text
         for inp in BOUNDARY:
-            cases.append(self.rerun(json.loads(json.dumps(inp))))
-        return cases
+            inps.append(json.loads(json.dumps(inp)))
+        return self.rerun_many(inps)
 
     # ---- shrinking -----------------------------------------------------------
     def shrink_candidates(self, inp):
@@ -852,6 +1120,10 @@ class C18:
 
         def clone():
             return json.loads(json.dumps(inp))
+        for i in range(len(inp.get('prelude') or [])):
+            c = clone()
+            del c['prelude'][i]
+            yield c
         if inp.get('host') and inp['host']['kind'] != 'id':
             c = clone()
             c['host'] = None
@@ -931,6 +1203,24 @@ BOUNDARY = [
      'params': {'by': 5}, 'exact': True},
     {'fn': 'interpolate', 'depth': 6, 'rows': [[N_, LCM * 1., N_, N_, LCM * 4., N_], [N_, N_, N_, N_, N_, N_]],
      'params': {}, 'exact': True, 'host': {'kind': 'index', 'ps': [1, 0]}},
+    # the three Butterworth filters with the same cut-off, order and sampling frequency one after the other
+    {'fn': 'highpass', 'depth': 8, 'rows': [[5., 6., 4., 7., 5., 3., 6., 5.], [1., N_, 2., 3., 1., 0., 2., 1.]],
+     'params': {'f': 0.2, 'order': 2}, 'host': {'kind': 'index', 'ps': [1, 0]},
+     'prelude': [{'fn': 'lowpass', 'params': {'f': 0.2, 'order': 2}, 'on': 'same'}]},
+    {'fn': 'lowpass', 'depth': 8, 'rows': [[5., 6., 4., 7., 5., 3., 6., 5.]], 'params': {'f': 10.0, 'order': 3, 'fs': 100.0},
+     'prelude': [{'fn': 'highpass', 'depth': 4, 'rows': [[1., 2., 3., 4.]], 'params': {'f': 10.0, 'order': 3, 'fs': 100.0}},
+                 {'fn': 'bandpass', 'params': {'f': 10.0, 'f2': 20.0, 'order': 3, 'fs': 100.0}, 'on': 'same'}]},
+    {'fn': 'bandpass', 'depth': 8, 'rows': [[5., 6., 4., 7., 5., 3., 6., 5.]], 'params': {'f': 0.2, 'f2': 0.4},
+     'prelude': [{'fn': 'lowpass', 'params': {'f': 0.2}, 'on': 'same'}, {'fn': 'highpass', 'params': {'f': 0.4}, 'on': 'same'},
+                 {'fn': 'bandpass', 'params': {'f': 0.2, 'f2': 0.4, 'order': 1}, 'on': 'same'}]},
+    # the same window length with another window type; the same function on another column first
+    {'fn': 'smooth', 'depth': 7, 'rows': [[1., 2., 4., 8., 4., 2., 1.], [0., 0., 1., 0., 0., 3., 0.]],
+     'params': {'winlen': 3, 'wintype': 'flat'},
+     'prelude': [{'fn': 'smooth', 'params': {'winlen': 3, 'wintype': 'hanning'}, 'on': 'same'},
+                 {'fn': 'smooth', 'params': {'winlen': 5, 'wintype': 'flat'}, 'on': 'same'}]},
+    {'fn': 'z', 'depth': 4, 'rows': [[1., 3., 1., 3.], [0., N_, 4., 8.]], 'params': {},
+     'prelude': [{'fn': 'z', 'depth': 4, 'rows': [[10., 30., 10., 30.], [0., 1., 2., 3.]], 'params': {}},
+                 {'fn': 'downsample', 'params': {'by': 2}, 'on': 'same'}, {'fn': 'interpolate', 'params': {}, 'on': 'same'}]},
 ]
 for _b in BOUNDARY:
     _b.setdefault('params', {})
